@@ -52,6 +52,31 @@ def nontrivial_key(chunk, which):
     return keys
 
 
+LOOPS = ["public <s> = (go | forward | ten | meters | to | then)+ ;",
+         "public <s> = (go | forward | ten | meters)* (one | two | ten) [ meters | meter ] ;",
+         "public <s> = (a | the | to | two | ten | then | and)+ ;",
+         "public <s> = go forward ten meters;"]
+
+
+def deep_nbest_cases(rng, count, base):
+    """word-loop grammars / very wide beams give lattices with thousands of paths: walk the N-best list deep
+    enough for the A* agenda (MAX_PATHS = 500) to overflow and be pruned"""
+    out = []
+    for i in range(count):
+        g = LOOPS[i % len(LOOPS)]
+        cfg = {"hmm": os.path.join(sut.REPO, "model", "en-us"),
+               "dict": os.path.join(sut.REPO, "tests", "data", "turtle.dic"), "loglevel": "FATAL"}
+        if i % len(LOOPS) == 3 or rng.random() < 0.3:
+            cfg.update(decmatrix.BEAMS["wide"])
+        aud = rng.choice(["gf", "gf", "cut", "tail", "mid"])
+        s = list(decmatrix.audio_defs()) + ["init " + decmatrix.hx(json.dumps(cfg)),
+                                            "jsgf " + decmatrix.hx("#JSGF V1.0;\ngrammar g;\n" + g + "\n"), "start",
+                                            "feed %s 0 -1 i16 0 0" % aud, "end", "result fin", "lattice fin 1",
+                                            "nbest fin %d" % rng.choice([4000, 8000]), "free"]
+        out.append(("deep-nbest-%d-%s#%d" % (i % len(LOOPS), aud, base + i), s))
+    return out
+
+
 def classify(f):
     """A stable key for a rejected event: the clause TLC named, refined (for the first-best clause) by the
     situation the lattice builder was in - decided from the recorded events only."""
@@ -85,6 +110,8 @@ def run_which(ctx, which):
         model_check(ctx, which, quick)
         n = 120 if quick else 1500
         cases = [decmatrix.make_case(rng, ctx, i, want) for i in range(n)]
+        if which == "C12":
+            cases += deep_nbest_cases(rng, 3 if quick else 20, n)
     by_id = dict(cases)
     chunks, crashes = decmatrix.run_cases(ctx, drv, cases)
     for eid, why in crashes:
